@@ -140,8 +140,12 @@ structure BlkFile where
 def isDigit (c : Char) : Bool := '0' ≤ c && c ≤ '9'
 
 /-- Rust `str::parse::<u64>`: optional `+`, then one or more ASCII digits, value ≤ u64::MAX -/
+def stripPlus : List Char → List Char
+  | '+' :: r => r
+  | cs => cs
+
 def parseU64 (cs : List Char) : Option Nat :=
-  let ds := match cs with | '+' :: r => r | _ => cs
+  let ds := stripPlus cs
   if ds.isEmpty || !ds.all isDigit then none
   else
     let v := ds.foldl (fun a c => a * 10 + (c.toNat - 48)) 0
